@@ -195,7 +195,7 @@ SIG = {
     "xrand.Sample": ("XSample", ["z", "z", "z"]), "xrand.SampleSlice": ("XSampleSlice", ["zl", "z", "z"]),
     "xrand.SampleIterator": ("XSampleIterator", ["zl", "z", "z"]), "xrand.Shuffle": ("XShuffle", ["zl", "z"]),
 }
-ORACLE_ONLY = {"xrand.Freq", "xslices.InsertAliased"}
+ORACLE_ONLY = {"xrand.Freq", "xslices.InsertAliased", "xerrors.WithStackDeep"}
 TRACE_WHICH = {"sample": 0, "slice": 1, "iterator": 2, "shuffle": 3}
 
 
@@ -639,6 +639,14 @@ def oracle_call(op, ob):
             bad("not-idempotent", "WithStack(WithStack(err)) = %r, WithStack(err) = %r" % (r[1], ob["once"]))
     elif fn == "xerrors.WithStackIs" and r[0] != "skip":
         expect("bool", ob.get("is_before"), sig="not-transparent-to-Is")
+    elif fn == "xerrors.WithStackDeep":
+        # "adds the call stack of the call to WithStack to Error()": the functions listed are exactly the frames
+        # runtime.Callers reports at the call site, whatever the depth (the stack is collected in pieces)
+        if pan:
+            bad("unexpected-panic", "panicked (%s)" % ob.get("msg"))
+        elif r[1] is not True:
+            bad("stack-not-the-call-stack", "at recursion depth %d Error() lists %s frames, the call stack has %s (first difference at frame %s)"
+                % (a[0], ob.get("listed"), ob.get("frames"), ob.get("first_diff")))
 
     # ---------------- xrand (structure only; the distribution is outside the property's checkable part)
     elif fn == "xrand.Sample":
@@ -1048,7 +1056,8 @@ class XErrorsSpec(PureSpec):
     quick_per_fn = 90
 
     def always(self):
-        return [["xerrors.WithStackTwice", [["b", 1]]], ["xerrors.WithStack", [["w", 31], ["s"], ["b", 1]]], ["xerrors.WithStack", None],
+        return [["xerrors.WithStackDeep", 30], ["xerrors.WithStackDeep", 61], ["xerrors.WithStackDeep", 130], ["xerrors.WithStackDeep", 700],
+                ["xerrors.WithStackTwice", [["b", 1]]], ["xerrors.WithStack", [["w", 31], ["s"], ["b", 1]]], ["xerrors.WithStack", None],
                 ["xerrors.WithStackIs", [["w", 31], ["b", 1]], [["b", 1]]]]
 
     def universes(self, rng, tier):
@@ -1062,6 +1071,7 @@ class XErrorsSpec(PureSpec):
                 if c[i:] not in targets:
                     targets.append(c[i:])
         u["xerrors.WithStackIs"] = ([["xerrors.WithStackIs", c, t] for c in chains for t in targets], [])
+        u["xerrors.WithStackDeep"] = ([["xerrors.WithStackDeep", d] for d in list(range(0, 140)) + [250, 255, 256, 257, 500, 1000, 5000]], [])
         return u
 
 
